@@ -8,6 +8,9 @@ def run(ctx, spec):
     cases, impl, model, stats = S.gen_and_run(ctx, "C13")
     mism, counters, samples = S.compare_run(ctx, cases, impl, model, S.ALL_FIELDS,
                                             "result differs from the VM model (relocation / inlining of definitions)")
+    pf, npred = S.pred_failures(cases, impl, model, "spec2")
+    counters["pred_spec2_evaluated"], counters["pred_spec2_failed"] = npred, len(pf)
+    mism = pf + mism
     # (a) in place / inline subroutine / global pattern must find the same spans
     groups = {}
     for cid, cline in cases.items():
@@ -81,17 +84,22 @@ def run(ctx, spec):
 
 PROPS = {"C13": dict(
     lean_modules=["Vore.Props.C13"],
-    theorems=["Vore.C13_relocate_atoms", "Vore.C13_concat"],
+    theorems=["Vore.C13_relocate_atoms", "Vore.C13_concat", "Vore.C13_sub_transparent", "Vore.C13_call_transparent", "Vore.C13_global_transparent", "Vore.C13_vm_follows_spec"],
     run=run,
     manifest=dict(
         text="Proved in Lean: the result of a multi-command program is the concatenation of its commands' results "
              "(C13_concat, runProgram); running is a function of (bytecode, text) only and never changes the bytecode "
              "(by construction of the functional model, no theorem claimed: the correspondence run checks second runs, runs "
              "after other runs and recompilation on the REAL code); relocation (adjust) is the identity on leaf instructions and "
-             "shifts every pc-carrying field by the same offset (C13_relocate_atoms). PARTIAL: the transparency theorem "
-             "`body in place = inline subroutine = set..to pattern` needs the subroutine simulation (stage 2 of C01) and is "
-             "so far decided by the metamorphic correspondence: the three spellings in 6 contexts with 1-3 references must "
-             "find the same spans on the implementation, and each equals the VM model (bytecode compared as L4).",
+             "shifts every pc-carrying field by the same offset (C13_relocate_atoms). Transparency: in the specification a "
+             "subroutine node matches exactly what its body matches in place, a call exactly what the target's body matches "
+             "at the point of reference, a global pattern its body then its predicate (C13_sub_transparent, "
+             "C13_call_transparent, C13_global_transparent), and by the subroutine-aware simulation (C01 stage 2) two "
+             "spellings with the same specification have the same VM results (C13_vm_follows_spec). PARTIAL: the equation "
+             "`spec(ctx[B]) = spec(ctx[{B}=s .. s]) = spec(set s to pattern B; ctx[s])` for arbitrary contexts is not proved "
+             "as one theorem; it is decided by the metamorphic correspondence: the three spellings in 6 contexts with 1-3 "
+             "references must find the same spans on the implementation, and each equals the VM model and Spec.findAllR "
+             "(bytecode of the two-pass generator compared with the real generator's as L4).",
         note="Trusted: Lean kernel; Gen model (first reference inlines a relocated copy, later ones call it) by correspondence.",
         technique="Lean 4 proofs about runProgram/adjust + metamorphic and differential correspondence"),
 )}
